@@ -11,3 +11,5 @@ import GoFlags.Props.C20
 #print axioms GoFlags.C20.diagnostic_names_are_the_visible_ones
 #print axioms GoFlags.C20.diagnostic_names_are_sorted
 #print axioms GoFlags.C20.suggestion_is_nearest_visible
+#print axioms GoFlags.C20.ccLoop
+#print axioms GoFlags.C20.trans_closestChoice_partial
